@@ -73,9 +73,10 @@ func init() {
 		Explanation: "Decides structural necessary conditions of 'compressed tables decode to the same actions': GUARD(usedBase): every freshly chosen displacement base in allocator.place reaches a return only through the not-used outcome of usedBase.Get(delta+base), and the base is recorded (two rows with one base decode each other's cells). " +
 			"GUARD(dedupe): a cached base is reused only when the bounds check held and value+check column were compared. CODEC(optimize): every value stored into a row is error(-1), shift(-2-state), a rule index or the unfilled sentinel; under defaultReduce the sentinel is -K-len(Action), K>=2 (distinct from every shift code, the nonassoc error and rule indices), and only cells equal to the sentinel receive the default reduction. " +
 			"MUSTPASS(compile-order): populateTables < resolveWithLookahead < reportConflicts < minimize < Optimize. GUARD(optimize-la): Optimize is not run on tables holding deep-lookahead pointers. RESET(histogram): a counter slice reused across states (Optimize's reuse, pickDefault's parameter) is zeroed inside the iteration before it is bumped and read back. LOOPBOUND: no element-by-element scan in lalr/ or util/container (the bit sets the row packer searches) stops short of its slice. OPTIONMAP: each option key of the grammar file sets its own Options field (defaultReduce and optimizeTables are switched on only by their own keys). " +
-			"Not decided: full functional equality of the two encodings, pickDefault's choice. AGREE(option-plumbing): every field of the lalr.Options literal in compileParser that is filled from grammar.Options/compiler.Params is filled from the field of the same name (defaultReduce is not switched on by a neighbouring option). CODEC(default-fallback): every decode site of the displacement encoding in the generated Go parsers reads the row default (tmDefAct/tmDefGoto) on the failing edge of the tmCheck owner test. CODEC(parser) as in C01: every read of the packed table in the generated parsers (main loop, gotoState, reduceAll, lookahead) is guarded by 0 <= pos < tmTableLen - cell 0 included.",
-		Rules: []string{"GUARD(usedBase)", "GUARD(dedupe)", "CODEC(optimize)", "MUSTPASS(compile-order)", "GUARD(optimize-la)", "OPTIONMAP", "LOOPBOUND", "RESET(histogram)", "AGREE(option-plumbing)", "CODEC(default-fallback)", "CODEC(parser)"},
+			"Not decided: full functional equality of the two encodings, pickDefault's choice. AGREE(option-plumbing): every field of the lalr.Options literal in compileParser that is filled from grammar.Options/compiler.Params is filled from the field of the same name (defaultReduce is not switched on by a neighbouring option). CODEC(default-fallback): every decode site of the displacement encoding in the generated Go parsers reads the row default (tmDefAct/tmDefGoto) on the failing edge of the tmCheck owner test. CODEC(parser) as in C01: every read of the packed table in the generated parsers (main loop, gotoState, reduceAll, lookahead) is guarded by 0 <= pos < tmTableLen - cell 0 included. SIBLING(gotoState) as in C01: the reference lookup DefaultEnc.gotoState, through which Optimize reads the uncompressed tables, checks the block end in both of its search branches.",
+		Rules: []string{"GUARD(usedBase)", "GUARD(dedupe)", "CODEC(optimize)", "MUSTPASS(compile-order)", "GUARD(optimize-la)", "OPTIONMAP", "LOOPBOUND", "RESET(histogram)", "AGREE(option-plumbing)", "CODEC(default-fallback)", "CODEC(parser)", "SIBLING(gotoState)"},
 		Run: func(c *Ctx) {
+			ruleGOTOSIBLING(c)
 			ruleUSEDBASE(c)
 			ruleDEDUPE(c)
 			ruleOPTCODEC(c)
@@ -241,9 +242,11 @@ func init() {
 		ID: "C11",
 		Explanation: "Decides structural necessary conditions of 'generated Go lexers tokenize as specified': AGREE(hash): the keyword hash computed by the generator (gen.stringHash) uses the multiplier and the scan unit (rune in rune mode, byte in bytes mode) of the hash the generated lexer accumulates. LINECOL/CURSOR/PROGRESS as in C12 (positions, line and column of each token). FIELDCOV(checkpoint) + CODEC(lexdfa) writer side as in C09 (the tables the lexer is generated from). " +
 			"RESET(checkpoint): the checkpoint does not survive a restart. CODEC(runemap): generated mapRune and lex.CompressedMap agree that entries cover [lo, hi). " +
-			"Not decided: token sequences as such; byte-mode and large-Unicode-map template branches are not instantiated by any shipped lexer. PAIR(checkpoint): backupRule, backupOffset and backupHash are recorded together. CONSTAGREE(reserved-tokens): canInlineRules skips as many reserved RuleToken entries as the token floor below which a rule prevents inlining (an explicit invalid_token rule is never inlined, so its match is not mistaken for \"nothing matched\"). LINECOL also rejects a line start computed from source[:l.offset] when l.offset is assigned afterwards (rewind). GUARD(eoi-cycle): generate() refuses tables with a cycle of end-of-input transitions (the scanners feed EOI without consuming, so only the absence of such a cycle makes them terminate at the end of input). TMPL(field-maintain): in go_lexer.go.tmpl, whenever line/lineOffset is declared, its update at a newline and its recomputation in rewind() are generated too (guard formulas, all truth assignments) - tokenColumn without tokenLine keeps correct columns. GUARD(comment-single-line): the constant text of a pattern is tested for line breaks before it becomes the token's line comment (otherwise the generated token enum gains a stray constant and the following token values shift).",
-		Rules: []string{"AGREE(hash)", "LINECOL", "CURSOR", "PROGRESS", "FIELDCOV(checkpoint)", "CODEC(lexdfa)", "PAIR(checkpoint)", "CODEC(runemap)", "RESET(checkpoint)", "CONSTAGREE(reserved-tokens)", "GUARD(eoi-cycle)", "TMPL(field-maintain)", "GUARD(comment-single-line)"},
+			"Not decided: token sequences as such; byte-mode and large-Unicode-map template branches are not instantiated by any shipped lexer. PAIR(checkpoint): backupRule, backupOffset and backupHash are recorded together. CONSTAGREE(reserved-tokens): canInlineRules skips as many reserved RuleToken entries as the token floor below which a rule prevents inlining (an explicit invalid_token rule is never inlined, so its match is not mistaken for \"nothing matched\"). LINECOL also rejects a line start computed from source[:l.offset] when l.offset is assigned afterwards (rewind). GUARD(eoi-cycle): generate() refuses tables with a cycle of end-of-input transitions (the scanners feed EOI without consuming, so only the absence of such a cycle makes them terminate at the end of input). TMPL(field-maintain): in go_lexer.go.tmpl, whenever line/lineOffset is declared, its update at a newline and its recomputation in rewind() are generated too (guard formulas, all truth assignments) - tokenColumn without tokenLine keeps correct columns. GUARD(comment-single-line): the constant text of a pattern is tested for line breaks before it becomes the token's line comment (otherwise the generated token enum gains a stray constant and the following token values shift). DTX(rune-fold) as in C10 (caseInsensitive folds a standalone rune however it is spelled). LOSTWRITE(range-copy) as in C09 (the rule-to-token conversion of an inlined lexer reaches Backtrack[i] itself).",
+		Rules: []string{"AGREE(hash)", "LINECOL", "CURSOR", "PROGRESS", "FIELDCOV(checkpoint)", "CODEC(lexdfa)", "PAIR(checkpoint)", "CODEC(runemap)", "RESET(checkpoint)", "CONSTAGREE(reserved-tokens)", "GUARD(eoi-cycle)", "TMPL(field-maintain)", "GUARD(comment-single-line)", "DTX(rune-fold)", "LOSTWRITE(range-copy)"},
 		Run: func(c *Ctx) {
+			ruleLOSTWRITE(c, "lex", "compiler")
+			ruleRUNEFOLD(c)
 			ruleRUNEMAP(c)
 			ruleCKRESET(c)
 			ruleHASHAGREE(c)
@@ -337,9 +340,11 @@ func init() {
 		ID: "C02",
 		Explanation: "Decides structural necessary conditions of 'listener events reproduce the derivation' on every case of every committed generated applyRule: STACKIDX: each stack reference stack[len(stack)-K] / stack[len(stack)-A:len(stack)-B] of case i lies inside the tmRuleLen[i] symbols of rule i (inside the prefix for mid-rule nonterminals), ranges are non-empty, fixTrailingWS gets exactly the whole right-hand side. " +
 			"GUARD(markerfree) and LOOPSHAPE(marker-transparent): state markers never count as symbols and never stop a scan of the right-hand side (HasTrailingNulls decides whether trailing whitespace is trimmed). VARIANT(trim-trailing-empty): all trailing empty symbols are trimmed from a node's range. SIBLING(list-recursion): every recursive list rule built by Expand is left-recursive unless the list is flagged right-recursive (elements are reported in source order). TYPESTATE(lookahead): the offset given to an empty node (p.next.offset) is read only while the lookahead is fetched, never after it was consumed by a shift. FIELDROLE(input): each branch on a flag of syntax.Input reads the flag its audited role names (node types are collected from non-Synthetic inputs; NoEoi is a different bool on the same record). " +
-			"Not decided: that the range is the right sub-range, post-order, node types; list expansion order. SOURCE(identity): every generated lexer's Init keeps the caller's string in l.source unmodified (reported ranges are offsets into the caller's text; a byte-order mark is skipped by moving the offset). LOOPSHAPE(marker-transparent) also rejects a marker test on one fixed position of a right-hand side outside a loop. TMPL(switch-guard): every grammar predicate that can make a case arm of applyRule appear (HasTrailingNulls for the fixTrailingWS arm) also feeds the guard under which `switch rule {` is generated. BOUND(trim-floor): the loops stripping trailing empty symbols go down to index 1 in reportRange (rhs[0] is read afterwards) and to index 0 in parse()/fixTrailingWS. FIELDCOV(minimize): the rule-class key of DFA minimisation contains whether a rule ends with a nullable symbol, so reduce states of rules whose ranges are trimmed (fixTrailingWS is selected by rule number) are not merged with those of rules that are not. LOOPCARRY(deep-lookahead) as in C07.",
-		Rules: []string{"STACKIDX", "GUARD(markerfree)", "LOOPSHAPE(marker-transparent)", "VARIANT", "SIBLING(list-recursion)", "TYPESTATE(lookahead)", "FIELDROLE(input)", "SOURCE(identity)", "TMPL(switch-guard)", "BOUND(trim-floor)", "FIELDCOV(minimize)", "LOOPCARRY(deep-lookahead)"},
+			"Not decided: that the range is the right sub-range, post-order, node types; list expansion order. SOURCE(identity): every generated lexer's Init keeps the caller's string in l.source unmodified (reported ranges are offsets into the caller's text; a byte-order mark is skipped by moving the offset). LOOPSHAPE(marker-transparent) also rejects a marker test on one fixed position of a right-hand side outside a loop. TMPL(switch-guard): every grammar predicate that can make a case arm of applyRule appear (HasTrailingNulls for the fixTrailingWS arm) also feeds the guard under which `switch rule {` is generated. BOUND(trim-floor): the loops stripping trailing empty symbols go down to index 1 in reportRange (rhs[0] is read afterwards) and to index 0 in parse()/fixTrailingWS. FIELDCOV(minimize): the rule-class key of DFA minimisation contains whether a rule ends with a nullable symbol, so reduce states of rules whose ranges are trimmed (fixTrailingWS is selected by rule number) are not merged with those of rules that are not. LOOPCARRY(deep-lookahead) as in C07. GUARD(reuse-equal) and DTX(expr-equal) as in C13: a list or group is only merged with an existing helper nonterminal when the two expressions are equal including the node type of nested arrows (otherwise the elements of the second list are reported with the first list's node type).",
+		Rules: []string{"STACKIDX", "GUARD(markerfree)", "LOOPSHAPE(marker-transparent)", "VARIANT", "SIBLING(list-recursion)", "TYPESTATE(lookahead)", "FIELDROLE(input)", "SOURCE(identity)", "TMPL(switch-guard)", "BOUND(trim-floor)", "FIELDCOV(minimize)", "LOOPCARRY(deep-lookahead)", "GUARD(reuse-equal)", "DTX(expr-equal)"},
 		Run: func(c *Ctx) {
+			ruleEXPREQUAL(c)
+			ruleREUSEEQUAL(c)
 			rulePEEK(c)
 			ruleSWITCHGUARD(c)
 			ruleSOURCEID(c)
@@ -358,9 +363,10 @@ func init() {
 	register(&Property{
 		ID: "C16",
 		Explanation: "Decides structural necessary conditions of 'semantic action references bind to the right symbols': STACKIDX on the code emitted for $-references in every committed applyRule case (slots inside the rule, or inside the prefix for mid-rule actions). GUARD(markerfree): ActionVars.SymRefCount (the stack depth references are computed from) counts only non-marker symbols. " +
-			"LOCKSTEP(reference): ActionVars.resolve reports the position whose stack index it returns (the generator picks the type assertion by position). GUARD(remap-markerfree): the position remap stores the count of pushed symbols (never a length of rule.RHS, which includes state markers). FIELDCOV(extract-pos): the reference that replaces an extracted set/list carries expr.Pos on every path to its return. Not decided: that K is the slot of the named symbol in every expansion. FIELDCOV(action-key): every ActionVars field that commandExtractor.extract consults (SymRefCount becomes the stack offset) is part of ActionVars.String(), the key under which identical mid-rule actions share one nonterminal. FIELDCOV(renumber): both passes that renumber nonterminals (Instantiate, Rearrange) write every record that holds symbol numbers: Expr.Symbol, ArgRef.Symbol (the table $-references and their types resolve against), TokenSet.Symbol, Input.Nonterm. CONSISTENT(scope-map): the existence probes by which pushName finds a free name#N all consult the same (top-level) map. PAIR(pop-propagation) and SENTINEL(remap-absent) as in C17: names of deeper groups stay addressable, and a reference to an absent optional symbol resolves to -1, not to stack slot 0.",
-		Rules: []string{"STACKIDX", "GUARD(markerfree)", "LOCKSTEP(reference)", "GUARD(remap-markerfree)", "FIELDCOV(extract-pos)", "FIELDCOV(action-key)", "FIELDCOV(renumber)", "CONSISTENT(scope-map)", "PAIR(pop-propagation)", "SENTINEL(remap-absent)"},
+			"LOCKSTEP(reference): ActionVars.resolve reports the position whose stack index it returns (the generator picks the type assertion by position). GUARD(remap-markerfree): the position remap stores the count of pushed symbols (never a length of rule.RHS, which includes state markers). FIELDCOV(extract-pos): the reference that replaces an extracted set/list carries expr.Pos on every path to its return. Not decided: that K is the slot of the named symbol in every expansion. FIELDCOV(action-key): every ActionVars field that commandExtractor.extract consults (SymRefCount becomes the stack offset) is part of ActionVars.String(), the key under which identical mid-rule actions share one nonterminal. FIELDCOV(renumber): both passes that renumber nonterminals (Instantiate, Rearrange) write every record that holds symbol numbers: Expr.Symbol, ArgRef.Symbol (the table $-references and their types resolve against), TokenSet.Symbol, Input.Nonterm. CONSISTENT(scope-map): the existence probes by which pushName finds a free name#N all consult the same (top-level) map. PAIR(pop-propagation) and SENTINEL(remap-absent) as in C17: names of deeper groups stay addressable, and a reference to an absent optional symbol resolves to -1, not to stack slot 0. INVARIANT(flat-top): every value stored into rhsRule.top is nil, a rule tested with isTopLevel() on that edge, or the .top of another rule, so that maxPos/incPos (which dereference .top once) allocate the positions of groups nested two or more levels deep from the top-level counter.",
+		Rules: []string{"STACKIDX", "GUARD(markerfree)", "LOCKSTEP(reference)", "GUARD(remap-markerfree)", "FIELDCOV(extract-pos)", "FIELDCOV(action-key)", "FIELDCOV(renumber)", "CONSISTENT(scope-map)", "PAIR(pop-propagation)", "SENTINEL(remap-absent)", "INVARIANT(flat-top)"},
 		Run: func(c *Ctx) {
+			ruleFLATTOP(c)
 			ruleREMAP(c)
 			ruleSCOPEMAP(c)
 			ruleRENUMBER(c)
@@ -450,9 +456,11 @@ func init() {
 	register(&Property{
 		ID: "C17",
 		Explanation: "Decides structural necessary conditions of 'generation completes and the generated Go code builds' on the template trees (parsed with text/template/parse, never executed, so option branches no shipped grammar instantiates are covered): TMPLGUARD: in parser.go/parser_tables.go/stream.go templates, node-type identifiers (NodeType/NodeFlags via nodeTypeRef…, node_id) appear only under guards implying .Parser.Types. TMPL(threshold): a numeric threshold tested by two Go templates is tested identically (helper emitted iff called). " +
-			"TMPLNAMES: every {{template}} resolves and every pipeline function is registered. ERRGUARD: a return taken because error E is non-nil returns E (gen.Generate and the compiler packages). Not decided: the option x feature space as a whole; Go type-correctness of un-instantiated branches. PAIR(intern): the idx, ok := m[k]; if !ok { idx = len(list); append } idiom records idx under k (no duplicate node types, which would be redeclared constants in listener.go). AGREE(session): (*Grammar).NeedsSession, evaluated for every assignment of the options that guard members of the template's session struct, is true exactly when lookaheads exist and a member exists (a use site never names a member that parse() declared as a local). AGREE(file-deps): on every path of gen.(*language).templates (all option combinations) each generated package that a selected group of Go files imports ({{pkg \"selector\"}}, token) is written by a selected group. AGREE(call-arity): every call of a TokenStream method whose first parameter exists only under an option guard (next: ctx under Cancellable and CancellableFetch) adds the argument under the same guard (template-tree sibling check: the text `.next(` is followed by the matching {{if}}). TMPL(def-use): for every helper function defined in go_parser.go.tmpl, the guard formula of each call site (and/or/not over the atomic template conditions, single-assignment template variables substituted, customisation switches taken as enabled) implies the guard formula of a definition, checked for every truth assignment. PAIR(seen-set): every once-only guard `if !seen[k]` records k in its branch. GUARD(inline-unique): canInlineRules refuses to inline when two lexer rules share a token. GUARD(synthetic-name-free): the synthetic category TokenSet is added only when that name is free among the declared categories and among the node types (both become declarations of the generated package). ONCE(go-decl): every emission of a Go short variable declaration inside goParserAction's reference loop is guarded by a failed seen-set lookup whose key is recorded in the same block (an action that mentions a symbol twice still builds). DEDUP(marker-states): minimize de-duplicates the remapped state list of a marker against a seen-set (the renumbering is not monotone; a repeated state is a duplicate key in the generated marker map). TMPL(field-use): every use of an option-guarded field of Lexer, TokenStream or Parser in go_lexer/go_stream/go_parser templates is emitted only for option combinations for which the field is declared (guard formulas, all truth assignments). TMPL(node-id): the declaration of node type constants in listener.go and every reference to them from generated Go code print the identifier through node_id (nodePrefix + name), so a non-empty nodePrefix still builds. GUARD(comment-single-line): the constant text of a pattern is tested for line breaks before it becomes the token's line comment (otherwise the generated token enum gains a stray constant and the following token values shift). SENTINEL(remap-absent): lookups in ActionVars.Remap whose key is not known to be present use the comma-ok form (an absent optional symbol is -1/nil, never stack slot 0 with a foreign type). PAIR(pop-propagation): popRule hands both the argRefs and the names of a finished nested group to the enclosing rule (an accepted grammar never fails in generation with `invalid reference`).",
-		Rules: []string{"TMPLGUARD", "TMPL(threshold)", "TMPLNAMES", "ERRGUARD", "PAIR(intern)", "AGREE(session)", "AGREE(file-deps)", "AGREE(call-arity)", "TMPL(def-use)", "PAIR(seen-set)", "GUARD(inline-unique)", "GUARD(synthetic-name-free)", "ONCE(go-decl)", "DEDUP(marker-states)", "TMPL(field-use)", "TMPL(node-id)", "GUARD(comment-single-line)", "SENTINEL(remap-absent)", "PAIR(pop-propagation)"},
+			"TMPLNAMES: every {{template}} resolves and every pipeline function is registered. ERRGUARD: a return taken because error E is non-nil returns E (gen.Generate and the compiler packages). Not decided: the option x feature space as a whole; Go type-correctness of un-instantiated branches. PAIR(intern): the idx, ok := m[k]; if !ok { idx = len(list); append } idiom records idx under k (no duplicate node types, which would be redeclared constants in listener.go). AGREE(session): (*Grammar).NeedsSession, evaluated for every assignment of the options that guard members of the template's session struct, is true exactly when lookaheads exist and a member exists (a use site never names a member that parse() declared as a local). AGREE(file-deps): on every path of gen.(*language).templates (all option combinations) each generated package that a selected group of Go files imports ({{pkg \"selector\"}}, token) is written by a selected group. AGREE(call-arity): every call of a TokenStream method whose first parameter exists only under an option guard (next: ctx under Cancellable and CancellableFetch) adds the argument under the same guard (template-tree sibling check: the text `.next(` is followed by the matching {{if}}). TMPL(def-use): for every helper function defined in go_parser.go.tmpl, the guard formula of each call site (and/or/not over the atomic template conditions, single-assignment template variables substituted, customisation switches taken as enabled) implies the guard formula of a definition, checked for every truth assignment. PAIR(seen-set): every once-only guard `if !seen[k]` records k in its branch. GUARD(inline-unique): canInlineRules refuses to inline when two lexer rules share a token. GUARD(synthetic-name-free): the synthetic category TokenSet is added only when that name is free among the declared categories and among the node types (both become declarations of the generated package). ONCE(go-decl): every emission of a Go short variable declaration inside goParserAction's reference loop is guarded by a failed seen-set lookup whose key is recorded in the same block (an action that mentions a symbol twice still builds). DEDUP(marker-states): minimize de-duplicates the remapped state list of a marker against a seen-set (the renumbering is not monotone; a repeated state is a duplicate key in the generated marker map). TMPL(field-use): every use of an option-guarded field of Lexer, TokenStream or Parser in go_lexer/go_stream/go_parser templates is emitted only for option combinations for which the field is declared (guard formulas, all truth assignments). TMPL(node-id): the declaration of node type constants in listener.go and every reference to them from generated Go code print the identifier through node_id (nodePrefix + name), so a non-empty nodePrefix still builds. GUARD(comment-single-line): the constant text of a pattern is tested for line breaks before it becomes the token's line comment (otherwise the generated token enum gains a stray constant and the following token values shift). SENTINEL(remap-absent): lookups in ActionVars.Remap whose key is not known to be present use the comma-ok form (an absent optional symbol is -1/nil, never stack slot 0 with a foreign type). PAIR(pop-propagation): popRule hands both the argRefs and the names of a finished nested group to the enclosing rule (an accepted grammar never fails in generation with `invalid reference`). TMPL(ctx-arity): for every `name({{if G}}ctx, {{end}}...)` in go_parser/go_stream/go_lexer templates and every option assignment under which the call is emitted, G equals the guard of the ctx parameter of the function called (arity) and implies the ctx parameter of the enclosing function (scope). DTX(alias-elision): the condition governing the write of an explicit import alias in ExtractGoImports, evaluated by a string-predicate evaluator over the SSA on a table of (path, alias) pairs whose alias is not the last path segment, is true for each (the alias may only be elided when it is the default name).",
+		Rules: []string{"TMPLGUARD", "TMPL(threshold)", "TMPLNAMES", "ERRGUARD", "PAIR(intern)", "AGREE(session)", "AGREE(file-deps)", "AGREE(call-arity)", "TMPL(def-use)", "PAIR(seen-set)", "GUARD(inline-unique)", "GUARD(synthetic-name-free)", "ONCE(go-decl)", "DEDUP(marker-states)", "TMPL(field-use)", "TMPL(node-id)", "GUARD(comment-single-line)", "SENTINEL(remap-absent)", "PAIR(pop-propagation)", "TMPL(ctx-arity)", "DTX(alias-elision)"},
 		Run: func(c *Ctx) {
+			ruleTMPLCTXARITY(c)
+			ruleALIASELISION(c)
 			ruleINTERN(c, "syntax", "compiler", "grammar", "gen", "lalr", "lex")
 			ruleSESSION(c)
 			ruleFILEDEPS(c)
@@ -480,11 +488,15 @@ func init() {
 	register(&Property{
 		ID: "C21",
 		Explanation: "Decides, for the shipped typed ASTs (js, tm; parsers/test/ast is a stale directory that test.tm no longer generates), that no accessor's type assertion can fail and the node factory is total: EXHAUST: the factory switch has a case for every NodeType constant. IMPL: for every accessor, every node type admitted by the last selector of its navigation chain (categories expanded through the generated category lists) and NilNode implement the asserted interface (go/types.Implements), and struct wrappers T{child} are used only with single-type selectors equal to T. " +
-			"TMPL(step-scope): the template emits each chain step's selector name from the step itself. Not decided: other grammars (type inference in syntax/types.go is algorithmic), 'every child is reachable through an accessor'. PAIR(save-restore): typeCollector.nontermPhrase reads c.referrer after the descent only behind the store that restores it (the low-link of a cycle reaches the entry nonterminal, whose fields become lists). FIELDCOV(minimize): every component of the rule-class key, node type and flags included, is filled on every path (states reporting different node types are not merged). SIBLING(tarjan-update): the low-link update after the recursive descent of the type collector's embedded Tarjan propagates lowLink[child], as util/graph's does. INTERVAL(bitset-size): the size expression of the generated selector.OneOf bit set, evaluated for every max in [0, 8*bits], exceeds max/bits. GUARD(sibling-boundary): addNode treats a stacked node as a later sibling iff its start offset >= the new node's end offset. COPY(struct-slices): a value copy of a field record (ret := *fields[0]) gets its own types slice before it is appended to and sorted in place, so inferred field types of other nodes that share the original slice do not change. GUARD(sibling-boundary) also covers the child test of addNode (stack[i].offset >= offset).",
-		Rules: []string{"EXHAUST", "IMPL", "TMPL(step-scope)", "FIELDCOV(minimize)", "PAIR(save-restore)", "SIBLING(tarjan-update)", "INTERVAL(bitset-size)", "GUARD(sibling-boundary)", "COPY(struct-slices)"},
+			"TMPL(step-scope): the template emits each chain step's selector name from the step itself. Not decided: other grammars (type inference in syntax/types.go is algorithmic), 'every child is reachable through an accessor'. PAIR(save-restore): typeCollector.nontermPhrase reads c.referrer after the descent only behind the store that restores it (the low-link of a cycle reaches the entry nonterminal, whose fields become lists). FIELDCOV(minimize): every component of the rule-class key, node type and flags included, is filled on every path (states reporting different node types are not merged). SIBLING(tarjan-update): the low-link update after the recursive descent of the type collector's embedded Tarjan propagates lowLink[child], as util/graph's does. INTERVAL(bitset-size): the size expression of the generated selector.OneOf bit set, evaluated for every max in [0, 8*bits], exceeds max/bits. GUARD(sibling-boundary): addNode treats a stacked node as a later sibling iff its start offset >= the new node's end offset. COPY(struct-slices): a value copy of a field record (ret := *fields[0]) gets its own types slice before it is appended to and sorted in place, so inferred field types of other nodes that share the original slice do not change. GUARD(sibling-boundary) also covers the child test of addNode (stack[i].offset >= offset). AGREE(min-update): in syntax, every `if A < B { B = V }` over memory locations stores the value it compared (the low-link update of the type collector's SCC compares and stores lowLink[child]). RESIDUE(with-quotient): every closure returned by a generated selector.OneOf that tests bit t % bits also uses the word index t / bits or a bound on t (no aliasing of node types that are congruent modulo the word size). GUARD(reuse-equal) and DTX(expr-equal) as in C13 (two lists that differ only in the reported node type are never merged: the accessors are derived from the written rules).",
+		Rules: []string{"EXHAUST", "IMPL", "TMPL(step-scope)", "FIELDCOV(minimize)", "PAIR(save-restore)", "SIBLING(tarjan-update)", "INTERVAL(bitset-size)", "GUARD(sibling-boundary)", "COPY(struct-slices)", "AGREE(min-update)", "RESIDUE(with-quotient)", "GUARD(reuse-equal)", "DTX(expr-equal)"},
 		Run: func(c *Ctx) {
+			ruleEXPREQUAL(c)
+			ruleREUSEEQUAL(c)
 			ruleSAVERESTORE(c, "syntax", "compiler", "gen", "grammar")
 			ruleTARJANSIB(c)
+			ruleMINUPDATE(c, "syntax")
+			ruleRESIDUE(c)
 			ruleSIBLINGBOUNDARY(c)
 			ruleBITSETSIZE(c)
 			ruleMINIMIZE(c)
